@@ -51,8 +51,10 @@ def setup():
         print(out[-3000:])
         return 1
     pd = os.path.join(vlib.VERIF, "harness", "props")
+    # only what MANIFEST.json registers (builders may have unfinished modules lying around)
+    reg = [c["property_id"].lower() for c in json.load(open(os.path.join(vlib.VERIF, "MANIFEST.json")))["checks"]]
     mods = ["props." + fn[:-3] for fn in sorted(os.listdir(pd))
-            if fn.startswith("c") and fn.endswith(".py") and fn[1:3].isdigit()]
+            if fn.startswith("c") and fn.endswith(".py") and fn[1:3].isdigit() and fn[:-3] in reg]
     os.environ["VERIF_JOBS"] = "4"
     vlib.NPROC = 4
     with mp.get_context("fork").Pool(6) as pool:
